@@ -89,6 +89,8 @@ type c01Call struct {
 	// the implementation sets every out parameter to the zero value of its type (empty vectors, maps, strings): with
 	// Prior this is where content of a used out variable could survive (ResetDefault, ReadSliceInt8/Uint8)
 	EmptyOuts bool `json:"empty_outs,omitempty"`
+	// DeepPrior > 0: out variables of type Node hold a chain nested that many structs deep (2n-1 levels on the wire)
+	DeepPrior int `json:"deep_prior,omitempty"`
 	// observations, filled in by the child
 	Sig    string   `json:"sig,omitempty"`    // Coq fsig
 	Args   string   `json:"args,omitempty"`   // Coq list val (all arguments as passed; out positions: the caller's prior value)
@@ -216,6 +218,15 @@ func c01Gen(tier string, rng *rand.Rand) []c01Case {
 			p := c01RandCall(rng, fn)
 			p.Prior, p.ErrKind, p.EmptyOuts = true, 0, true
 			one(p)
+		}
+		// an out variable in front of an in argument that holds a deeply nested value: the dispatcher has to pass over it;
+		// around the skip depth limit (2n-1 levels against 512: 256 passes, 257 does not)
+		if ci == 0 || tier == "thorough" {
+			for _, n := range []int{1, 100, 255, 256, 257, 258, 300} {
+				d := c01RandCall(rng, "deep")
+				d.ErrKind, d.OneWay, d.Prior, d.DeepPrior = 0, false, true, n
+				one(d)
+			}
 		}
 		// one-way calls
 		for _, fn := range []string{"note", "ping", "fItem", "many"} {
